@@ -35,7 +35,7 @@ REL = 1e-12
 
 
 def plan(tier):
-    return {"runs": 4000} if tier == "quick" else {"runs": 10000000, "budget": 900.0}
+    return {"runs": 4000} if tier == "quick" else {"runs": 80000, "budget": 900.0}
 
 
 def gen_points(rng):
